@@ -1113,6 +1113,8 @@ def find_in_ast(search, node):
                 return child_node
 
             elif isinstance(child_node, FunctionDef):
+                if child_node.name != query:
+                    continue  # a same-named parameter of *another* function is not the one asked for
                 if len(current_search):
                     query = current_search.pop(0)
                 _cursor = next(
